@@ -317,9 +317,12 @@ def truncatewords(val: str, num: Any = 15, end: str = "...") -> str:
 @string_filter
 def url_encode(val: str, *, environment: Environment) -> str:
     """Return a percent-encoded copy of _val_ so it is useable in a URL."""
+    # Lone surrogates (from `json.loads`, for example) are encoded like the three
+    # bytes that would represent them.
+    encoded = urllib.parse.quote_plus(val, errors="surrogatepass")
     if environment.auto_escape:
-        return Markup(urllib.parse.quote_plus(val))
-    return urllib.parse.quote_plus(val)
+        return Markup(encoded)
+    return encoded
 
 
 @string_filter
